@@ -59,6 +59,14 @@ func (mgr *TopicManager) subscribe(topics []string, qoss []byte, clientID string
 	mgr.Lock()
 	defer mgr.Unlock()
 
+	// Validate the whole batch before touching the trie: callers treat an error as
+	// "nothing was subscribed", so a malformed filter must not leave the filters
+	// that precede it in the trie.
+	for _, t := range topics {
+		if _, err := mgr.getLevels(t); err != nil {
+			return err
+		}
+	}
 	for i, t := range topics {
 		if err := mgr.insert(t, qoss[i], clientID); err != nil {
 			return err
